@@ -670,6 +670,7 @@ func runC01(c *Ctx) {
 	ruleReaderUses(c, "R01.c", "R01.c")
 	ruleLineReaderValue(c, "R01.c")
 	ruleOwnedBytes(c, "R01.c")
+	rulePayloadStores(c, "R01.e")
 	ruleConstructors(c)
 	c.assume("bytes.Buffer and strconv behave as documented")
 }
@@ -966,7 +967,7 @@ func checkMessageSerializer(c *Ctx, rid string, fn *ssa.Function, tt typeTables,
 				c.note("R01.b: a message whose Type is none of the declared constants serializes as %s (no default case)", got)
 			case hasByte && (b == '+' || b == '-' || b == ':'):
 				okForm := len(toks) == 3 && (toks[0].K == "TypeByte" || (toks[0].K == "Const" && toks[0].S == string(rune(b)))) &&
-					((strict && toks[1].K == "Payload") || toks[1].K == "San" || (!strict && toks[1].K == "SanRune")) && toks[1].S == payField &&
+					((strict && toks[1].K == "Payload") || (toks[1].K == "Payload" && payloadValidated(p.Facts, payField)) || toks[1].K == "San" || (!strict && toks[1].K == "SanRune")) && toks[1].S == payField &&
 					toks[2].K == "Const" && toks[2].S == "\r\n"
 				if okForm {
 					c.ok(rid, key, pos, got)
